@@ -543,3 +543,26 @@ def query_objects(kind, p0, p1, p2, k1, k2):
     picks = [enum_int(p0, 0, n - 1), enum_int(p1, 0, n - 1), enum_int(p2, 0, n - 1)]
     keys = [0, 1 if k1 else 0, 1 if k2 else 0]
     return native(_objects_run, kind, picks, keys)
+
+
+@cond('C02.keys.equal-hashes', quick=120,
+      bounds='4 rows with grouping keys from {-1, -2, 0, NULL} (hash(-1) == hash(-2) in CPython) as int and as decimal, v symbolic int: '
+             'SELECT k, count(*), sum(v) GROUP BY k and SELECT DISTINCT k: rows are partitioned by the value of the key',
+      symbolic='v cells', enumerated='keys, int / decimal',
+      params={**{f'k{i}': int for i in range(4)}, **{f'v{i}': int for i in range(4)}, 'dec': bool})
+def keys_equal_hashes(dec, **kw):
+    palette = [-1, -2, 0, None]
+    keys = [pick(palette, kw[f'k{i}']) for i in range(4)]
+    if dec:
+        keys = [None if k is None else D(k) for k in keys]
+    rows = [(k, kw[f'v{i}']) for i, k in enumerate(keys)]
+    columns = [('k', D if dec else int), ('v', int)]
+    stmt = sel([target(col('k')), target(func('count', ast.Asterisk()), 'n'), target(func('sum', col('v')), 's')], 't',
+               group_by=ast.GroupBy([1], None))
+    cur, got, want = _run_both(stmt, rows, columns)
+    if not same_rows(got, want.rows):
+        return 'groups-merged-or-split'
+    cur, got, want = _run_both(sel([target(col('k'))], 't', distinct=True), rows, columns)
+    if not same_rows(got, want.rows):
+        return 'distinct-keys'
+    return 'ok'
